@@ -61,7 +61,7 @@ def set_split(E, s, base, idx, v):
 
 def seq_split(E, s, ref):
     cell = s.cell(ref)
-    return int_term(cell.attrs["n"]), (lambda i: SStr(part(cell, i)))
+    return int_term(cell.attrs["n"]), (lambda i, s2=None: SStr(part(cell, i)))
 
 
 def sp_split_n(E, s, args, kw):
